@@ -165,6 +165,49 @@ def expired_between(seed):
       continue
     if len(t.tx) != 2 or t.tx[1] != data:
       bad.append(('payload not sent after the header when the timeout expired in between', dict(tx=len(t.tx))))
+  # the deadline falling anywhere around the header / payload boundary: a stepping clock (4 ms per observation)
+  # and a transport that, like the real ones, refuses a negative timeout; deadlines 1..60 ms
+  class Clock:
+    def __init__(self):
+      self.now = 1000.0
+
+    def time(self):
+      self.now += 0.004
+      return self.now
+
+    def sleep(self, s_):
+      self.now += max(s_, 0)
+  real_time = to.time
+  try:
+    for side in ('write', 'read'):
+      for deadline in range(1, 61):
+        to.time = Clock()
+        neg = []
+
+        def on_io(t_, x, ms):
+          if ms is not None and ms < 0:
+            neg.append(ms)
+            raise ValueError('negative timeout handed to the transport')
+        t = usbfake.ChunkTransport(rx=usbfake.frame('WRTE', 1, 2, 'xyz'), on_write=on_io, on_read=on_io)
+        ad = am.AdbTransportAdapter(t)
+        timeout = to.PolledTimeout.from_millis(deadline)
+        err = None
+        try:
+          if side == 'write':
+            ad.write_message(am.AdbMessage('WRTE', 1, 2, 'abc'), timeout)
+          else:
+            ad.read_message(timeout)
+        except Exception as e:  # pylint: disable=broad-except
+          err = type(e).__name__
+        det = dict(side=side, deadline_ms=deadline, error=err)
+        if neg:
+          bad.append(('a negative timeout is handed to the transport when the deadline falls between header and payload', det))
+        elif side == 'write' and len(t.tx) == 1:
+          bad.append(('payload not sent after the header when the timeout expired in between', det))
+        elif side == 'read' and len(t.rx) == 1:
+          bad.append(('a header was consumed and its payload left in the stream when the timeout expired in between', det))
+  finally:
+    to.time = real_time
   return bad
 
 
